@@ -26,7 +26,9 @@ RULE = ("random API histories of 30-200 calls (parse, ground, is_applicable, app
         "injected yields; sets of 60-150 read-only calls (print simplified / plain, export, vocabulary, subtype relation, ground, "
         "applicability, apply, problem content) over three domains of one name - two sharing a vocabulary and the text of a numeric "
         "comparison, one with other declarations under the same names - and problems with different object universes, executed in "
-        "two (thorough: three) orders by fresh interpreters; a case = one history / one thread run / one order differential; distinct by world text + call sequence; non-trivial when "
+        "two (thorough: three) orders by fresh interpreters, and likewise plan conversion (one converter per domain), single-agent and "
+        "joint trajectories (one exporter per domain), combining two directories whose agent files have the same names, and planner "
+        "logs rewritten on one path; a case = one history / one thread run / one order differential; distinct by world text + call sequence; non-trivial when "
         "the history re-applied an operator object after another call and replayed >= 5 journal entries (histories), or "
         ">= 20 injected switches fell inside library code (thread runs)")
 DECISIVE = ["contract:purity", "replays_compared", "thread_calls_compared"]
@@ -575,6 +577,100 @@ def run_order_differential(ctx, rng, thorough):
     ctx.nontrivial(["order", job["domains"], orders[0]])
 
 
+def run_order_differential_ma(ctx, rng, thorough):
+    """the fresh-process differential over the multi-agent and exporter entry points: plan conversion (one converter per
+    domain, as a caller would keep it), joint and single-agent trajectories, combining two directories whose agent files
+    have the same names, planner logs rewritten on one path"""
+    import json
+    import subprocess
+    from vlib import magen
+    from checks import c15, c19
+    w = magen.ma_world(rng)
+    text = w.domain_text()
+    try:
+        dm = model.RefDomain.from_text(text)
+    except model.ModelError:
+        return
+    wm = model.World(dm, w.objects)
+    job = {"domains": {"M": text}, "problems": {}, "calls": {}}
+    n = [0]
+
+    def add(call):
+        n[0] += 1
+        job["calls"][f"c{n[0]}"] = call
+
+    for j in range(2):
+        st0 = magen.ma_initial_state(rng, w)
+        pk = f"M{j}"
+        job["problems"][pk] = ["M", sx.plain(w.problem_ast(st0))]
+        seq = c15.gen_plan(rng, wm, dm, w, st0, rng.choice([5, 12]))
+        if len(seq) >= 2:
+            lines = ["(" + " ".join([an] + c) + ")" for an, c in seq]
+            add(["convert-plan", pk, lines, list(w.agents), True])
+            add(["convert-plan", pk, lines, list(w.agents), False])
+            add(["single-trajectory", pk, lines, False])
+            add(["single-trajectory", pk, lines[: max(2, len(lines) // 2)], True])
+        st, jl = st0, []
+        for _ in range(rng.choice([2, 4])):
+            members = magen.random_joint(rng, wm, dm, w, st)
+            if not members:
+                break
+            jl.append(magen.joint_line(w, members))
+            st = magen.commuting(wm, dm, st, members)
+        if jl:
+            add(["joint-trajectory", pk, jl])
+    # two directories, same file names, other content
+    w2 = magen.ma_world(rng)
+    for ww in (w, w2):
+        files = {}
+        for i in range(2):
+            wi = gen.W()
+            wi.__dict__.update(ww.__dict__)
+            wi.actions = [a for k, a in enumerate(ww.actions) if k % 2 == i]
+            files[f"domain-a{i}.pddl"] = wi.domain_text()
+        add(["combine-dir", files])
+    for layout in ("ff", "enhsp"):
+        for _ in range(2):
+            steps = c19.gen_plan(rng, rng.choice([0, 3, 12]))
+            if layout == "ff":
+                txt = c19.ff_log(rng, steps, set()) if rng.random() < 0.8 else "".join(c19.HEADER_BLOCKS[:2]) + "\n" + c19.NO_SOLUTION[0] + "\n"
+            else:
+                txt = "".join("(" + " ".join(t) + ")\n" for t in steps)
+            add(["planner-log", f"planner-output.{layout}", txt, layout])
+    ids = sorted(job["calls"])
+    if len(ids) < 4:
+        return
+    rng.shuffle(ids)
+    orders = [list(ids), list(reversed(ids))]
+    results = []
+    for order in orders:
+        jp = env.write_tmp(json.dumps(dict(job, order=order)), suffix=".json")
+        e = dict(os.environ, PYTHONPATH=env.HERE)
+        e.setdefault("PYTHONHASHSEED", "0")
+        try:
+            r = subprocess.run([sys.executable, "-m", "vlib.order_worker", jp, jp + ".out"], cwd=env.HERE, env=e, timeout=600,
+                               stdout=subprocess.PIPE, stderr=subprocess.STDOUT, text=True)
+            with open(jp + ".out") as f:
+                results.append(json.load(f))
+        except Exception as ex:
+            ctx.count("order_worker_failed")
+            ctx.notes["order_worker_error_ma"] = str(ex)[:300]
+            return
+    for cid in ids:
+        kind = job["calls"][cid][0]
+        a, b_ = results[0].get(cid), results[1].get(cid)
+        ctx.count("order_calls_compared")
+        ctx.count("order_answers:" + ("raised" if str(a).startswith("raised:") else "returned") + ":" + kind)
+        if a != b_:
+            ctx.violation(f"fresh-process:answer-depends-on-the-calls-made-before:{kind}",
+                          {"call": [str(x)[:400] for x in job["calls"][cid]], "answer_in_order_1": str(a)[:600], "answer_in_order_2": str(b_)[:600],
+                           "calls_before_it_in_order_1": [job["calls"][c][0] for c in orders[0][:orders[0].index(cid)]],
+                           "calls_before_it_in_order_2": [job["calls"][c][0] for c in orders[1][:orders[1].index(cid)]],
+                           "domain": text})
+            return
+    ctx.nontrivial(["order-ma", text, orders[0]])
+
+
 def run(ctx):
     lib.assert_repo()
     rng = ctx.rng("c07")
@@ -606,6 +702,8 @@ def run(ctx):
             continue
         ctx.count("cases")
         run_order_differential(ctx, rng, thorough)
+        ctx.count("cases")
+        run_order_differential_ma(ctx, rng, thorough)
     if thorough and ctx.shard == 0:
         run_repo_tests_under_monitor(ctx)
 
